@@ -4,8 +4,23 @@ use libfuzzer_sys::fuzz_target;
 use std::io::Write;
 
 fuzz_target!(|data: &[u8]| {
-    // headers announcing more than 1 MiB of payload would only make the reader allocate a large
-    // zeroed buffer before failing with a short read; keep the target fast
+    // headers announcing more than 1 MiB of payload only make the reader allocate a large zeroed
+    // buffer before failing with a short read (under ASan that costs ~100 ms each): skip such inputs
+    let mut p = 0usize;
+    while p + 44 <= data.len() {
+        let ver = u64::from_le_bytes(data[p..p + 8].try_into().unwrap());
+        if ver == 0 {
+            break;
+        }
+        let len = u32::from_le_bytes(data[p + 40..p + 44].try_into().unwrap()) as usize;
+        if len > (1 << 20) {
+            return;
+        }
+        if len == 0 {
+            break;
+        }
+        p += 44 + len;
+    }
     let dir = std::env::temp_dir().join(format!("cass-fuzz-seg-{}", std::process::id()));
     let _ = std::fs::create_dir_all(&dir);
     let f = dir.join("0_index.wal");
